@@ -17,7 +17,8 @@ import (
 func init() {
 	register(&RuleSet{
 		ID: "C11",
-		Explanation: "R12 writer and reader of a manifest-listed certificate object agree on its encoding: the reader (CertificateAuthority.Certificate) hands the object's bytes to x509.ParseCertificate as they are, so the uploader that registers a manifest entry writes the certificate's DER bytes (Certificate.Raw) and no PEM encoding of them on any path (if the reader PEM-decoded, the writer would have to PEM-encode on every path). " +
+		Explanation: "R13 no storage write of sign/gcsca is made from a deferred call unless it stands behind a test that the enclosing function's error is nil: a deferred write runs on the failure paths too, so a refused upload would still persist the manifest (with the new primary and no certificate for it). " +
+			"R12 writer and reader of a manifest-listed certificate object agree on its encoding: the reader (CertificateAuthority.Certificate) hands the object's bytes to x509.ParseCertificate as they are, so the uploader that registers a manifest entry writes the certificate's DER bytes (Certificate.Raw) and no PEM encoding of them on any path (if the reader PEM-decoded, the writer would have to PEM-encode on every path). " +
 			"R11 the upload function around the no-clobber gate of sign/gcsca returns a nil error only behind the gate call or for a key version that already has a manifest entry. " +
 			"R10 existence probes: an in-repo implementation of the storage client's Exists answers a result that can be true only where the error of its probing call is known nil (cannot-tell is not exists). " +
 			"R9 the local storage back end's object writer opens files truncating (a rewritten manifest keeps no stale tail). " +
@@ -40,6 +41,7 @@ func init() {
 func runC11(c *Ctx) {
 	defer c11ExistenceProbes(c)
 	defer c11StoredEncodingAgrees(c)
+	defer c11NoDeferredWrites(c)
 	defer c11UploadThroughGate(c)
 	// R9: the local storage back end replaces an object wholly when it is rewritten (a shorter manifest over a longer
 	// one keeps no stale tail): file-opening primitives in the closure of its Writer are truncating.
@@ -981,4 +983,87 @@ func c11StoredEncodingAgrees(c *Ctx) {
 		}
 	}
 	c.S.Floor("R12", "certificate contents written by manifest-entry uploaders of sign/gcsca", 1, n)
+}
+
+// c11NoDeferredWrites is R13: the ordering rules (manifest last, never after a failed upload) are decided on the
+// straight-line order of Finalize; a write moved into a deferred call escapes that order, because deferred calls run
+// on every exit, the failing ones included. The rule reports every defer in package sign/gcsca whose callee (a closure
+// or a function, followed through same-package calls) makes a logical storage write that is not dominated, inside the
+// deferred function, by a test that a captured error variable is nil.
+func c11NoDeferredWrites(c *Ctx) {
+	n := 0
+	var writesIn func(g *ssa.Function, depth int, seen map[*ssa.Function]bool) []ssa.CallInstruction
+	writesIn = func(g *ssa.Function, depth int, seen map[*ssa.Function]bool) []ssa.CallInstruction {
+		if g == nil || g.Blocks == nil || seen[g] || depth > 3 {
+			return nil
+		}
+		seen[g] = true
+		var out []ssa.CallInstruction
+		for _, b := range g.Blocks {
+			for _, in := range b.Instrs {
+				call, ok := in.(ssa.CallInstruction)
+				if !ok {
+					continue
+				}
+				if c.gcscaIsWrite(call) {
+					out = append(out, call)
+					continue
+				}
+				if h := call.Common().StaticCallee(); h != nil && load.RelPkg(h) == "sign/gcsca" {
+					if len(writesIn(h, depth+1, seen)) > 0 {
+						out = append(out, call)
+					}
+				}
+			}
+		}
+		return out
+	}
+	for _, f := range c.P.RepoFunctions() {
+		if load.RelPkg(f) != "sign/gcsca" || c.isTestFunc(f) || f.Blocks == nil {
+			continue
+		}
+		k := 0
+		for _, b := range f.Blocks {
+			for _, in := range b.Instrs {
+				df, ok := in.(*ssa.Defer)
+				if !ok {
+					continue
+				}
+				n++
+				var g *ssa.Function
+				if mc, ok := df.Call.Value.(*ssa.MakeClosure); ok {
+					g, _ = mc.Fn.(*ssa.Function)
+				} else {
+					g = df.Call.StaticCallee()
+				}
+				if g == nil {
+					continue
+				}
+				for _, w := range writesIn(g, 0, map[*ssa.Function]bool{}) {
+					k++
+					guarded := false
+					for _, cf := range dominatingConds(w.Block()) {
+						op, other, ok := relFact(cf, func(v ssa.Value) bool {
+							ld, ok := v.(*ssa.UnOp)
+							if !ok || ld.Op != token.MUL {
+								return false
+							}
+							fv, ok := ld.X.(*ssa.FreeVar)
+							if !ok {
+								return false
+							}
+							pt, ok := fv.Type().Underlying().(*types.Pointer)
+							return ok && types.Identical(pt.Elem(), types.Universe.Lookup("error").Type())
+						})
+						if ok && op == token.EQL && isNilK(other) {
+							guarded = true
+						}
+					}
+					c.S.Check(guarded, "R13", fmt.Sprintf("%s:deferred storage write #%d", load.FuncName(f), k), c.pos(w.Pos()), "the deferred write stands behind a nil test of the function's error",
+						"a storage write is made from a deferred call with no test that the function is succeeding: it also runs when an upload was refused or failed, persisting the manifest (its new primary key included) ahead of, or without, the certificates it references")
+				}
+			}
+		}
+	}
+	c.S.OK("R13", "sign/gcsca:deferred calls", "", fmt.Sprintf("%d deferred calls examined for storage writes", n), false)
 }
